@@ -89,6 +89,40 @@ def run(ctx):
             results.append((i, label, rc))
             if i % 17 == 0:
                 samples_out.append({"case": label, "summary": s, "exit": rc})
+        # errors of other origins: two handlers disagreeing about one file, an argument that does not exist, a name that is not UTF-8
+        extra = []
+        for brp, check, par in itertools.product([False, True], repeat=3):
+            for origin in ("two-handlers-error-and-unsupported", "missing-argument", "non-utf8-name"):
+                i = len(combos) + len(extra)
+                sub = "x%d" % i
+                t.mkdir(sub)
+                t.add_file(sub + "/clean.gz", fc.gz(5))
+                args, env = [], {}
+                if brp:
+                    args.append("--brp")
+                    env["RPM_BUILD_ROOT"] = t.root
+                if check:
+                    args.append("--check")
+                if par:
+                    args.append("-j2")
+                if origin == "two-handlers-error-and-unsupported":
+                    # truncated archive: an error for ar, not a gzip file at all for gzip (unsupported); the error must win
+                    t.add_file(sub + "/trunc.a", fc.ar([("x.o/", 5, 0, 0, 100644, b"abcdef")])[:-3])
+                    args += ["--ignore-extension", "--handler", "ar,gzip", t.path(sub + "/trunc.a")]
+                elif origin == "missing-argument":
+                    args += [t.path(sub), t.path(sub + "/does-not-exist")]
+                else:
+                    t.add_file(sub + "/bad-\udcff\udcfe.gz", fc.gz(5))
+                    args += [t.path(sub)]
+                rc, out = fh.run_cli(args, epoch=samples.EPOCH, env_extra=env, timeout=60)
+                s = fh.parse_summary(out)
+                label = "%s%s%s %s" % ("--brp " if brp else "", "--check " if check else "", "-j2 " if par else "", origin)
+                extra.append(label)
+                want_truth = contract(check, brp, True, False, False)
+                if (rc != 0) != want_truth:
+                    fails.append(("exit-vs-tree", "%s: exit status %d (summary %s), but processing met an error and the documented contract says %s" % (label, rc, s, "fail" if want_truth else "succeed"), label))
+                if s is not None and s["errors"] == 0:
+                    fails.append(("error-not-counted", "%s: an error occurred but the summary reports %s" % (label, s), label))
         cf = os.path.join(ctx.tmp, "verdict.txt")
         open(cf, "w").write("\n".join(vlines) + "\n")
         rcm, mout = sh([model_bin(), cf, "debug", "cfg"], timeout=120)
@@ -114,7 +148,7 @@ def run(ctx):
                                          "how_to_replay": "tree with clean.gz clean.a [+ short.gz (3 bytes 1f8b08) for an error] [+ notgz.gz for unsupported] [+ dirty.gz dirty.a (gzip MTIME / ar mtime 1700000000, epoch 1577836800) [each with a second hard link]]; run with the stated flags"})
         ctx.violations.append({"replay": d, "kind": kind, "msg": msg})
     ctx.coverage.update({
-        "evaluations": len(combos), "distinct_nontrivial": len(combos) - 8,
+        "evaluations": len(combos) + len(extra), "distinct_nontrivial": len(combos) - 8 + len(extra), "other_error_origins": extra[:6],
         "rule": "all 64 combinations {plain,--brp} x {--check or not} x {serial,-j2} x {errors present} x {unsupported present} x {modifiable present} (modifiable files single-link and hard-linked: 96 runs), each realised by an engineered tree "
                 "(checked against the reported counters); exit status compared with the documented contract and with the model's verdict; non-trivial = not the all-clean tree",
         "samples": samples_out, "exhaustive": True, "correspondence_mismatches": len(mism), "oracle_failures": len(fails),
